@@ -85,7 +85,9 @@ META = {
         "splitlines list) and are taken by position from a line source that yields every line, blank ones included (no "
         "emptiness filter in readlines or at the next() calls), the item type to_sphinx stores (the constructor and keywords Sphinx's loader uses, e.g. "
         "_InventoryItem(project_name, project_version, uri, display_name) for Sphinx >= 8.2), the base url joined into the "
-        "location by to_sphinx with the function Sphinx's loader uses (posixpath.join), and the '-' sentinel of to_sphinx / from_sphinx / Sphinx's v1 loader "
+        "location by to_sphinx with the function Sphinx's loader uses (posixpath.join), the location otherwise carried over "
+        "verbatim by to_sphinx and from_sphinx (the '$' shorthand is file syntax the loader already resolved; any slicing, "
+        "concatenation or string-rewriting call on the way is reported), and the '-' sentinel of to_sphinx / from_sphinx / Sphinx's v1 loader "
         "(from_sphinx must map exactly '' and '-' to None: lossless round trip)."
     ),
     "not_decided": (
@@ -3836,6 +3838,47 @@ def r5_constants(corpus: Corpus, rep: Report, tier: str):
         rep.ok(rid, k, ts.module.site(joins[0]), f"{sorted(s_join)[0]}(base_url, loc), as Sphinx's loader")
     else:
         rep.violation(rid, k, ts.module.site(uri_e), f"the uri of a converted item is `{short(uri_e, 40)}`, which does not go through {sorted(s_join)[0]}(base_url, loc): for an inventory loaded with a base_url, to_sphinx yields the relative location where Sphinx {ver}'s loader stores the full URL")
+    # (9) the conversions carry the location over verbatim: the '$' shorthand, anchors etc. are syntax of the FILE and
+    #     were resolved by the loader; in memory a location is literal (Sphinx's too), so apart from the base-url join
+    #     nothing may rewrite it - a second expansion changes a location that legitimately ends in '$'
+    MUTATORS = {"replace", "strip", "rstrip", "lstrip", "removesuffix", "removeprefix", "lower", "upper", "format", "join", "split", "partition", "rpartition", "rsplit", "sub", "subn", "quote", "unquote", "translate"}
+
+    def rewriting(x):
+        """the first construct in ``x`` that builds a new string instead of passing one on"""
+        for n_ in ast.walk(x):
+            if isinstance(n_, ast.Call) and ts.module.resolve(dotted(n_.func) or "") in s_join:
+                continue
+            if isinstance(n_, (ast.BinOp, ast.JoinedStr)):
+                return n_
+            if isinstance(n_, ast.Subscript) and isinstance(n_.slice, ast.Slice):
+                return n_
+            if isinstance(n_, ast.Call) and isinstance(n_.func, ast.Attribute) and n_.func.attr in MUTATORS and not (n_.func.attr == "join" and x.__class__ is ast.Call and n_ is x):
+                return n_
+        return None
+
+    k = f"{ts.fq}|location carried over verbatim"
+    bad_ = next((r_ for x in srcs_ for r_ in [rewriting(x)] if r_ is not None), None)
+    if bad_ is None:
+        rep.ok(rid, k, ts.module.site(uri_e), "item['loc'], only joined to the base url")
+    else:
+        rep.violation(rid, k, ts.module.site(bad_), f"to_sphinx rewrites the location (`{short(bad_, 50)}`): the loader has already resolved the file syntax ('$' shorthand), in memory a location is literal - one that legitimately ends in '$' (or contains what is rewritten) is changed again, so to_sphinx(load(x)) differs from what Sphinx loads and from_sphinx(to_sphinx(inv)) != inv")
+    f_loc = _dict_value(fitem, "loc")
+    k = f"{fs.fq}|location carried over verbatim"
+    if f_loc is None:
+        raise Unsupported(f"{fs.fq}: stored item has no literal \"loc\" entry")
+    fsrcs, fwork, fseen = [], [_inline(corpus, fs, f_loc)], set()
+    while fwork:
+        x = fwork.pop()
+        fsrcs.append(x)
+        for n_ in ast.walk(x):
+            if isinstance(n_, ast.Name) and n_.id not in fseen:
+                fseen.add(n_.id)
+                fwork += [_inline(corpus, fs, d.value) for d in fs.local_nodes() if isinstance(d, ast.Assign) and any(_is_name(t_, n_.id) for t_ in d.targets)]
+    bad_ = next((r_ for x in fsrcs for r_ in [rewriting(x)] if r_ is not None), None)
+    if bad_ is None:
+        rep.ok(rid, k, fs.module.site(f_loc), "the Sphinx item's uri")
+    else:
+        rep.violation(rid, k, fs.module.site(bad_), f"from_sphinx rewrites the location (`{short(bad_, 50)}`): a Sphinx in-memory uri is literal, so the converted inventory points somewhere else and the round trip is not lossless")
     rep.expect_min(rid, 14, "2 headers, 2 offset pairs, v1 split + 2 paths, 3 constant sets, 2 sentinels, 2 boundary sets")
 
 
@@ -4128,6 +4171,24 @@ def mutants(corpus: Corpus):
             ], "a position in")
         else:
             out.append(("c18-line-end-searched-in-new-chunk-only", "readline has no `while (pos := buffer.find(sep)) ...` loop"))
+    # class "file syntax resolved a second time in a conversion"
+    locdef = find_node(ts, lambda n: isinstance(n, ast.Assign) and len(n.targets) == 1 and isinstance(n.targets[0], ast.Name) and isinstance(n.value, ast.Subscript) and _cstr(n.value.slice) == "loc")
+    tloop = _enclosing_for(locdef) if locdef is not None else None
+    if locdef is not None and tloop is not None and isinstance(tloop.target, ast.Tuple) and isinstance(tloop.target.elts[0], ast.Name):
+        lv_, nm_, i_ = locdef.targets[0].id, tloop.target.elts[0].id, " " * locdef.col_offset
+        seg_ = ast.get_source_segment(src, locdef)
+        add("c18-to-sphinx-expands-dollar-again", "C18.R5", locdef, f'{seg_}\n{i_}if {lv_}.endswith("$"):\n{i_}    {lv_} = {lv_}[:-1] + {nm_}', "carried over verbatim")
+        add("c18-to-sphinx-strips-trailing-dollar", "C18.R5", locdef.value, f'{ast.get_source_segment(src, locdef.value)}.rstrip("$")', "carried over verbatim")
+    else:
+        out.append(("c18-to-sphinx-expands-dollar-again", "to_sphinx does not bind item['loc'] to a local inside its name loop"))
+    fst3 = find_node(fs, lambda n: isinstance(n, ast.stmt) and _objects_store_any(n))
+    fit3 = _item_dict(fs, _entry_store(fst3, rooted=False)[1]) if fst3 is not None else None
+    fl3 = _dict_value(fit3, "loc") if fit3 is not None else None
+    if isinstance(fl3, ast.Name):
+        nm3 = unparse(_entry_store(fst3, rooted=False)[0][-1])
+        add("c18-from-sphinx-reabbreviates-location", "C18.R5", fl3, f'({fl3.id}[: -len({nm3})] + "$" if {fl3.id}.endswith({nm3}) else {fl3.id})', "carried over verbatim")
+    else:
+        out.append(("c18-from-sphinx-reabbreviates-location", "from_sphinx does not store a local as the item's loc"))
     # 7b1698e (round 14): blank lines are kept by readlines, header lines are positional
     if rls is not None:
         yf2 = find_node(rls, lambda n: isinstance(n, ast.Expr) and isinstance(n.value, ast.YieldFrom) and isinstance(n.value.value, ast.Call) and isinstance(n.value.value.func, ast.Attribute) and n.value.value.func.attr == "splitlines")
